@@ -356,6 +356,7 @@ class Sim:
 
     def _on_sleep(self, dt):
         # Node.stop() polls with time.sleep(1): one virtual second, one settle
+        self.settle()                 # writer and I/O threads flush what stop() queued
         self.env.now += int(dt)
         self.run_wait_events()
         self.settle()
